@@ -76,8 +76,13 @@ class C18(Prop):
                         lines.append(lines[0])
                         col.count("files_with_a_repeated_line")
                     ign[d] = lines
-                    with open(os.path.join(root, d, ".gitignore"), "w") as f:
-                        f.write("\n".join(lines) + "\n")
+                    # the file as bytes: sometimes a UTF-8 byte order mark in front (git skips it), CRLF line ends
+                    data = ("\r\n" if r.random() < 0.1 else "\n").join(lines) + "\n"
+                    if r.random() < 0.1:
+                        data = "\ufeff" + data
+                        col.count("files_with_bom")
+                    with open(os.path.join(root, d, ".gitignore"), "w", newline="") as f:
+                        f.write(data)
             active = [p for ls in ign.values() for p in ls if p.strip() and not p.startswith("#")]
             for p in active:
                 for c in pattern_classes(p):
